@@ -2,7 +2,8 @@
    correspondence run).  Nothing but statements closed by `exact`, each followed by
    Print Assumptions. *)
 From Coq Require Import ZArith List Bool Arith Permutation.
-Require Import SkV.C12.Model SkV.C12.Own SkV.C12.Proofs SkV.C12.BridgeOwn.
+Require Import SkV.C12.Model SkV.C12.Own SkV.C12.Cutoff SkV.C12.Proofs SkV.C12.BridgeOwn
+  SkV.C12.BridgeCutoff.
 Import ListNotations.
 
 (* ---- (i) ownership: "never modify the caller's data and never change the estimator" ---- *)
@@ -91,6 +92,22 @@ Theorem C12_generated_methods_preserve_caller_data : forall cond fn cnt k m so,
   forall i, i < length st0 -> i <> e -> get (fst (apply e m st0 caller)) i = get st0 i.
 Proof. exact generated_methods_preserve_caller_data. Qed.
 Print Assumptions C12_generated_methods_preserve_caller_data.
+
+(* predict of a forecaster never changes the estimator's cutoff: a program over that field in
+   which every assignment lies inside a save / restore region leaves it where it was, for all
+   stored values, conditions, loop counts and exits by return / raise ... *)
+Theorem C12_guarded_program_keeps_cutoff : forall setv kcond kcnt p, guarded p = true ->
+  forall s, fst (kexec setv kcond kcnt p s) = s.
+Proof. exact guarded_keeps_cutoff. Qed.
+Print Assumptions C12_guarded_program_keeps_cutoff.
+
+(* ... and the programs REGENERATED from the code reachable from `predict` of the listed
+   forecasters (virtual dispatch through the package; the in-sample moving-cutoff pass of the
+   window forecasters included) are of that kind *)
+Theorem C12_predict_keeps_cutoff : forall name p, In (name, p) cutoff_progs ->
+  forall setv kcond kcnt s, fst (kexec setv kcond kcnt p s) = s.
+Proof. exact predict_keeps_cutoff. Qed.
+Print Assumptions C12_predict_keeps_cutoff.
 
 (* ---- (ii) scheduling: "equal results whatever n_jobs is" ---- *)
 
